@@ -162,6 +162,7 @@ func checkChildren(w *World, r *Report, a *sqlAstInfo, rule string) {
 func shortQual(p *types.Package) string { return p.Name() }
 
 func runC15(w *World, r *Report) {
+	c15FormatterNames(w, r, "R-C15-9")
 	r.Rule("R-C15-1", "every node-bearing field of every sqlparse/ast node type flows into the result of its Children(); every argument of nodes() is a Node or []Node", 60)
 	r.Rule("R-C15-2", "in each case of Tables() every node-bearing field of the statement type is passed to read/write/admin (or the whole statement is walked); DDL expression fields are frozen exceptions", 20)
 	r.Rule("R-C15-3", "StatementKind() and Tables() have a case for every ast.Statement implementer; authorizers' switches cover every UsageMode; schema-kind predicates cover every Create/Drop/Alter kind", 40)
@@ -1265,4 +1266,118 @@ func lastSeg(id string) string {
 	}
 
 	return id
+}
+
+// c15RawFieldOK: string fields of AST nodes that the formatter may write as
+// they are, each with the reason the text cannot be anything but what the
+// parser put there from a closed set.
+var c15RawFieldOK = map[string]string{
+	"ast.BinaryExpr.Op":       "set by the expression parser from operator tokens and keyword matches (AND, OR, ||, <= …), never from an identifier's text",
+	"ast.UnaryExpr.Op":        "set from operator tokens / NOT",
+	"ast.LikeExpr.Op":         "one of LIKE, GLOB, REGEXP, MATCH, ILIKE, chosen by keyword match",
+	"ast.CompoundSelect.Op":   "one of UNION, UNION ALL, INTERSECT, EXCEPT, chosen by keyword match",
+	"ast.JoinClause.JoinType": "assembled from the join keywords the parser matched",
+	"ast.InsertStmt.OrAction": "the parser accepts only REPLACE, IGNORE, ABORT, FAIL, ROLLBACK here",
+	"ast.UpdateStmt.OrAction": "the parser accepts only REPLACE, IGNORE, ABORT, FAIL, ROLLBACK here",
+	"ast.BeginStmt.Mode":      "transaction control text; the SQL endpoints refuse transaction control statements before executing anything (R-C17-6)",
+	"ast.Placeholder.Text":    "the lexer's own placeholder token (?, ?N, $N, :name, @name)",
+	"ast.Literal.Value":       "numeric / keyword literals are lexer tokens; string and blob literals are re-escaped by the literal printer",
+	"ast.TypeName.Args":       "integers, printed with strconv.Itoa",
+}
+
+// c15FormatterNames: R-C15-9 (shared with C16). What Format writes is what
+// the SQL endpoints execute; what Tables() reports is what they authorize. A
+// name that came from a quoted identifier may contain anything, so a string
+// field of an AST node is written to the output only through a quoting writer
+// (ident, dottedName, the type-name word loop), unless the field is in the
+// table above.
+func c15FormatterNames(w *World, r *Report, ruleID string) {
+	r.Rule(ruleID, "the formatter writes names as names: in package sqlparse every printer.write whose text comes from a string field of an AST node is either on the frozen list of fields the parser fills from a closed set, or writes a value that passed quoteIdent or was found to be a bare identifier (isBareIdent true edge)", 12)
+
+	sp := w.pkg("internal/sqlparse")
+	if sp == nil {
+		return
+	}
+
+	seen := map[string]int{}
+
+	for _, fn := range w.srcFuncs(sp) {
+		allInstrs(fn, func(in ssa.Instruction) {
+			c, ok := in.(*ssa.Call)
+			if !ok || !strings.HasSuffix(callID(c.Common()), "sqlparse.printer.write") || len(c.Call.Args) < 2 {
+				return
+			}
+
+			a := c.Call.Args[1]
+			if _, isC := constString(a); isC {
+				return
+			}
+
+			// which AST field does the text come from?
+			src := ""
+
+			derivesFrom(a, func(s ssa.Value) bool {
+				var fa *ssa.FieldAddr
+
+				if u, ok := s.(*ssa.UnOp); ok {
+					fa, _ = u.X.(*ssa.FieldAddr)
+				}
+
+				if fa != nil && strings.Contains(fa.X.Type().String(), "sqlparse/ast.") {
+					n := namedOf(fa.X.Type())
+					if n != nil {
+						src = "ast." + n.Obj().Name() + "." + fieldName(fa.X.Type(), fa.Field)
+					}
+
+					return src != ""
+				}
+
+				return false
+			}, func(string) bool { return true })
+
+			if src == "" {
+				return
+			}
+
+			key := fnKey(fn) + "|writes " + src
+			seen[key]++
+
+			if k := seen[key]; k > 1 {
+				key += " #" + sprintInt(k)
+			}
+
+			// quoted, or known bare?
+			if qc, isCall := a.(*ssa.Call); isCall && strings.HasSuffix(callID(qc.Common()), "sqlparse.quoteIdent") {
+				r.Discharge(ruleID, key, w.pos(c.Pos()), "through quoteIdent")
+
+				return
+			}
+
+			bare := false
+
+			for _, f := range dominatingFacts(c.Block()) {
+				if f.Kind != "true" {
+					continue
+				}
+
+				if bc, isCall := f.V.(*ssa.Call); isCall && strings.HasSuffix(callID(bc.Common()), "sqlparse.isBareIdent") && len(bc.Call.Args) == 1 && bc.Call.Args[0] == a {
+					bare = true
+				}
+			}
+
+			if bare {
+				r.Discharge(ruleID, key, w.pos(c.Pos()), "only when isBareIdent holds for this text")
+
+				return
+			}
+
+			if why, ok := c15RawFieldOK[src]; ok {
+				r.Except(ruleID, key, w.pos(c.Pos()), why)
+
+				return
+			}
+
+			r.Violate(ruleID, key, w.pos(c.Pos()), "the text of "+src+" is written into the SQL as it is: when it came from a quoted identifier it can hold SQL of its own (`\"f(1), (SELECT … FROM secret), g\"(2)`), which the table analysis of the parsed statement never saw but the database executes")
+		})
+	}
 }
